@@ -244,6 +244,19 @@ fn stream(sink: &mut Sink, o: &Opts) {
         }
         sink.emit(stream_event(&src, &splits));
     }
+    // a backslash in front of the line break (there is no escape syntax: a line ends at its terminator), in every
+    // kind of line, followed by lines that would close a quoted value
+    for l in ["# {\"id\":\"sourceFile\",\"fileName\":\"Foo", "# {\"id\":\"sourceFile\",\"fileName\":\"", "# k: v", "a.B -> a:", "    int f -> g", "    1:2:void m(int):3:4 -> n", "    void m("] {
+        for term in ["\n", "\r\n", "\r"] {
+            for k in 1..3usize {
+                let first = format!("{}{}{}", l, "\\".repeat(k), term);
+                let src = format!("{}Bar.kt\"}}\n    int f -> g\nx.Y -> b:\n", first);
+                let mut splits: Vec<usize> = src.bytes().enumerate().filter(|(_, b)| *b == b'\n').map(|(i, _)| i + 1).collect();
+                splits.truncate(2);
+                sink.emit(stream_event(src.as_bytes(), &splits));
+            }
+        }
+    }
     // every kind of last line with every kind of terminator (none, CR at the very end, CRLF, doubled)
     for last in [&b"not a record"[..], b"    void m() -> n", b"x.Y -> b:", b"# k: v", b"    1:2:void m(", b"\xc3"] {
         for term in [&b"\r"[..], b"\r\n", b"\n", b"", b"\r\r", b"\n\r"] {
@@ -825,7 +838,17 @@ fn cache(sink: &mut Sink, o: &Opts) {
                         };
                         (parse, answers)
                     };
-                    let (full_parse, full_answers) = at4(&bytes);
+                    // what the file means: its answers when parsed at a properly aligned address
+                    let (full_parse, full_answers) = {
+                        let store = crate::handles::Aligned::new(&bytes);
+                        let qs = gen::targeted(src, 40);
+                        let r = guarded(std::panic::AssertUnwindSafe(|| {
+                            let c = proguard::ProguardCache::parse(store.bytes()).unwrap();
+                            let h = crate::handles::Handle::Cache(c);
+                            qs.iter().map(|q| { let pq = crate::handles::parse_query(q); h.answer(&pq) }).collect::<Vec<Value>>()
+                        }));
+                        match r { Ok(a) => (json!({"ok": true}), a), Err(p) => (json!({"ok": false, "err": "panic", "msg": p}), vec![]) }
+                    };
                     for cut in 0..bytes.len() {
                         let (p, a) = at4(&bytes[..cut]);
                         let accepted = p["ok"] == true;
